@@ -21,6 +21,8 @@ assert os.path.realpath(ift.__file__).startswith(os.path.realpath(REPO)), \
 
 def setup_cl():
     shims_cl.install()
+    import logging
+    ift.logger.setLevel(logging.ERROR)
 
 
 def field_of(dom, arr):
